@@ -90,29 +90,48 @@ PROPS = {
             'technique': 'observed field/element ranges judged by Layout!ElemsInOrder (order, containment, '
                          'disjointness, span counts, iterator.data) in every recorded state'},
     'C05': {'level': 'model_checking',
-            'units': {'quick': u('S1', ALL) + u('SF', VARYING), 'thorough': u('S1', ALL, ('AE', 'NP')) + u('SF', VARYING)},
+            'units': {'quick': u('S1', ALL) + u('SF', VARYING) + u('S2', ALL, ('NP',)),
+                      'thorough': u('S1', ALL, ('AE', 'NP')) + u('SF', VARYING) + u('S2', ALL, ('NP', 'AE', 'PR'))},
             'kinds': K_TIGHT, 'crash': never, 'filter': None,
             'technique': 'observed offsets compared with the greedy layout of Layout.tla; footprint judged against '
                          'the observed footprint of a fresh vector'},
     'C06': {'level': 'model_checking',
-            'units': {'quick': u('S1', NONTRIV), 'thorough': u('S1', NONTRIV, ('AE', 'NP'))},
+            'units': {'quick': u('S1', NONTRIV) + u('S2', NONTRIV, ('NP', 'PR')),
+                      'thorough': u('S1', NONTRIV, ('AE', 'NP')) + u('S2', NONTRIV, ('NP', 'AE', 'PR'))},
             'kinds': K_LIFE | {'VALUES'}, 'crash': crash_any, 'filter': None,
             'technique': 'constructor/assignment/destructor events of the instrumented value type inside every '
                          'operation folded by the lifetime sub-machine of Trace.tla; live objects compared with the '
                          'slots of the held values after every step'},
     'C07': {'level': 'model_checking',
-            'units': {'quick': u('S1', ALL), 'thorough': u('S1', ALL, ('AE', 'NP'))},
+            'units': {'quick': u('S1', ALL) + u('S2', ALL, ('NP',)) + u('S2', ['F_N', 'V_N'], ('AE', 'PR')),
+                      'thorough': u('S1', ALL, ('AE', 'NP')) + u('S2', ALL, ('NP', 'AE', 'PR'))},
             'kinds': K_LEDGER, 'crash': never, 'filter': None,
             'technique': 'allocate/deallocate events of the ledger allocator folded by the ledger sub-machine of '
                          'Trace.tla (size, equal allocator, exactly once); empty ledger required at the end of every '
                          'history'},
+    'C08': {'level': 'model_checking',
+            'units': {'quick': u('S2', ['F_N', 'V_T'], ('NP', 'PR', 'K100', 'K010', 'K001', 'AE')),
+                      'thorough': u('S2', ['F_T', 'F_N', 'V_T', 'V_N', 'P_TA', 'M_NA'],
+                                    ('AE', 'K000', 'K001', 'K010', 'K011', 'K100', 'K101', 'K110', 'K111', 'PR'))},
+            'kinds': K_ALLOC, 'crash': crash_any, 'filter': None,
+            'technique': 'two-vector TLA+ model with the std::allocator_traits propagation rules (Cntgs.tla, '
+                         'AllocatorPropagation) explored by TLC per trait combination; get_allocator() and the allocator '
+                         'instance of every block (at use and at free) judged by Trace.tla'},
+    'C09': {'level': 'model_checking',
+            'units': {'quick': u('S2', ALL, ('NP',)) + u('S2', ['F_N', 'V_N'], ('AE', 'PR')),
+                      'thorough': u('S2', ALL, ('NP', 'AE', 'PR'))},
+            'kinds': K_VALUE, 'crash': crash_any, 'filter': None,
+            'technique': 'two-vector TLA+ model (copy/move construction and assignment, swap, self forms, moved-from '
+                         'targets, all source/target shapes up to capacity 2) explored by TLC; the projection of BOTH '
+                         'vectors judged by Trace.tla after every step (values, independence of bystanders)'},
     'C10': {'level': 'model_checking',
             'units': {'quick': u('S1', ALL) + u('SF', VARYING), 'thorough': u('S1', ALL, ('AE', 'NP')) + u('SF', VARYING)},
             'kinds': K_SEQ | K_MEM | K_STABLE | K_TIGHT | K_LIFE, 'crash': crash_any, 'filter': at_reserve,
             'technique': 'every Reserve step of the TLC-generated histories (no-op and growing, any fill level) '
                          'judged by Trace.tla: contents, capacity, block stability when n <= capacity'},
     'C16': {'level': 'model_checking',
-            'units': {'quick': u('S1', ALL), 'thorough': u('S1', ALL, ('AE', 'NP'))},
+            'units': {'quick': u('S1', ALL) + u('S2', ALL, ('NP',)),
+                      'thorough': u('S1', ALL, ('AE', 'NP')) + u('S2', ALL, ('NP', 'AE', 'PR'))},
             'kinds': K_STABLE, 'crash': never, 'filter': None,
             'technique': 'block identity, data_begin, per-object offsets and ledger events of consecutive recorded '
                          'states compared by Trace.tla (JudgeStability/JudgeTransfer)'},
@@ -132,7 +151,13 @@ def load_findings():
     return json.load(open(p))
 
 
-def cfg_matches(cfg, scope):
+def cfg_matches(cfg, scope, akind=None):
+    if scope.get('storage_alignment_gt1') is not None:
+        if (max(p['al'] for p in cfg['P']) > 1) != scope['storage_alignment_gt1']:
+            return False
+    if scope.get('ak') and akind is not None:
+        if any(akind[k] != v for k, v in scope['ak'].items()):
+            return False
     hasv = any(p['k'] == 'varying' for p in cfg['P'])
     nontriv = any(p['triv'] == 0 for p in cfg['P'])
     if 'configs' in scope and cfg['id'] not in scope['configs']:
@@ -187,7 +212,7 @@ def run_units(units, tier, seed, cfgs, akinds, findings):
     upool = ThreadPoolExecutor(6)
     futs = []
     for scen, c, ak, build in units:
-        cuts = sorted({f['scope']['cut'] for f in findings if f['scope'].get('cut') and cfg_matches(cfgs[c], f['scope'])
+        cuts = sorted({f['scope']['cut'] for f in findings if f['scope'].get('cut') and cfg_matches(cfgs[c], f['scope'], akinds[ak])
                        and (not f['scope'].get('scenarios') or scen in f['scope']['scenarios'])})
         futs.append(((scen, c, ak, build, cuts),
                      upool.submit(vlib.run_unit, cfgs[c], ak, akinds[ak], scen, tier, seed, tlcpool, build, -1, cuts)))
